@@ -1,0 +1,14 @@
+//go:build verif
+
+package tools
+
+// Comment-only file: machine-checked contracts for /verif (see /verif/DESIGN.md).
+//
+// The generic slice helpers are expanded at their call sites (their own loops are verified in the
+// caller's context, with loop invariants supplied by the caller's contract where it needs them).
+//
+//@ func Map
+//@   inline
+//
+//@ func Filter
+//@   inline
